@@ -48,7 +48,10 @@ var scriptSlots = map[string][]scriptSlot{
 	},
 }
 
-var scriptClasses = []string{"normal", "nonl", "crlf", "high", "shared", "empty", "percent", "nul", "braces"}
+var scriptClasses = []string{"normal", "nonl", "crlf", "high", "shared", "empty", "percent", "bom", "longline", "crlf-longline", "nul", "braces"}
+
+// scriptClassesQuick is the number of leading classes the quick tier runs over every slot subset.
+const scriptClassesQuick = 10
 
 // scriptSizes: script lengths around the tar block size and buffer sizes (thorough tier).
 var scriptSizes = []int{1, 2, 511, 512, 513, 1023, 1024, 1025, 4095, 4096, 4097, 32768, 65535, 65536, 65537, 1 << 20}
@@ -74,6 +77,14 @@ func scriptBytes(class, key string) []byte {
 	case "percent":
 		// text that a formatting function would interpret: verbs, %%, a date format, backslash escapes, {{ template }} actions
 		return []byte("#!/bin/sh\n# " + key + "\nprintf '%s %d %% %v\\n' a 1\ndate +%Y-%m-%d\necho '{{ .Name }} {{- end }}' \\t \\n $$ ${HOME} $(id -u)\n")
+	case "bom":
+		// a script saved with a byte order mark: the bytes are the script
+		return []byte("\xef\xbb\xbf#!/bin/sh\necho " + key + " \xef\xbb\xbf\n")
+	case "longline":
+		// a line longer than any line buffer (an embedded payload), with lines after it
+		return []byte("#!/bin/sh\necho " + key + "\nDATA='" + strings.Repeat("QUJD", 17500) + "'\necho after the long line of " + key + "\n")
+	case "crlf-longline":
+		return []byte("#!/bin/sh\r\necho " + key + "\r\nDATA='" + strings.Repeat("QUJD", 17500) + "'\r\necho after the long line of " + key + "\r\n")
 	case "nul":
 		return []byte("#!/bin/sh\necho " + key + "\x00after-nul\n")
 	case "braces":
@@ -168,7 +179,7 @@ func init() {
 	engine.Register(&engine.Prop{
 		ID:    "C09",
 		Level: "model_checking",
-		Rule: "every subset of the configurable script slots of every format (deb 2^7, rpm 2^7, apk 2^6, archlinux 2^6, ipk 2^4) x script byte classes (normal, no trailing newline, CRLF, bytes 0x80-0xff, one file shared by all slots, empty, text with % verbs / backslashes / {{ }} / $; thorough adds NUL-containing and brace/blank-line/here-document text), each slot carrying distinct bytes naming itself; " +
+		Rule: "every subset of the configurable script slots of every format (deb 2^7, rpm 2^7, apk 2^6, archlinux 2^6, ipk 2^4) x script byte classes (normal, no trailing newline, CRLF, bytes 0x80-0xff, one file shared by all slots, empty, text with % verbs / backslashes / {{ }} / $, a leading byte order mark, a 70 000-byte line with LF and with CRLF line ends, one 17 MiB script per slot; thorough adds NUL-containing and brace/blank-line/here-document text), each slot carrying distinct bytes naming itself; " +
 			"history: the same configuration built first with other bytes in the same script files (quick: one priming class; thorough: every ordered pair of 6 classes x every non-empty subset); " +
 			"placement: slots configured in the base settings, only in overrides.<format>, in overrides.<format> over base decoys (unset slots must keep the base script), or next to decoys in every other format's override block and own script block (quick: full slot set; thorough: every subset x 2 classes); " +
 			"company: with contents, conffiles, changelog, triggers and extra fields in the control data; umask settings; script paths relative to the working directory; thorough: script lengths 1..1 MiB around block and buffer sizes for each slot alone, each pair and all slots; " +
@@ -177,7 +188,7 @@ func init() {
 		Setup:       setupScripts,
 		Decode:      decodeInto[C09Case],
 		Bounds: func(env *engine.Env) map[string]any {
-			b := map[string]any{"classes_quick": scriptClasses[:7], "classes_thorough": scriptClasses, "placements": []string{"base", "override", "both", "other"},
+			b := map[string]any{"classes_quick": scriptClasses[:scriptClassesQuick], "classes_thorough": scriptClasses, "placements": []string{"base", "override", "both", "other"},
 				"script_sizes_thorough": scriptSizes, "history_classes_thorough": 6, "umasks": []string{"002", "022", "027", "077", "777"}}
 			for f, s := range scriptSlots {
 				b["slots_"+f] = len(s)
@@ -185,7 +196,7 @@ func init() {
 			return b
 		},
 		Enumerate: func(env *engine.Env, yield func(any) bool) {
-			classes := scriptClasses[:7]
+			classes := scriptClasses[:scriptClassesQuick]
 			if env.Thorough() {
 				classes = scriptClasses
 			}
@@ -233,6 +244,18 @@ func init() {
 						}
 					}
 					if class == "normal" && !env.Thorough() {
+						// quick: every subset configured in the override block over base decoys (the other slots keep the base script)
+						for _, s := range subs {
+							if !yield(C09Case{Format: f, Subset: s, Class: class, Where: "both"}) {
+								return
+							}
+						}
+						// one script beyond 16 MiB, alone in each slot
+						for i := 0; i < n; i++ {
+							if !yield(C09Case{Format: f, Subset: 1 << uint(i), Class: "size:17825797"}) {
+								return
+							}
+						}
 						// quick: the full slot set configured through the override block / shadowing base decoys / next to other formats' decoys
 						for _, w := range []string{"override", "both", "other"} {
 							if !yield(C09Case{Format: f, Subset: full(n), Class: class, Where: w}) {
